@@ -52,6 +52,11 @@ def available():
         return False
 
 
+def _is_display(t):
+    """a bundled observer's display thread: timed waits, never touches the plan"""
+    return getattr(getattr(t, "_target", None), "__name__", "") == "_run_update_thread"
+
+
 class WaveDriver:
     """Controlled scheduler at user-call granularity.
 
@@ -96,28 +101,51 @@ class WaveDriver:
         with self.lock:
             self.passed += 1
 
-    # -- engine threads = caller + threads created after start, minus the driver
+    # -- engine threads = every kernel thread of this process except those that existed before start (other than
+    #    the caller) and the driver itself. Kernel threads are listed from /proc/self/task, so a Python thread that
+    #    is already gone from threading.enumerate() but has not finished exiting is still seen (as running).
     def engine_threads(self):
         out = []
         for t in threading.enumerate():
             if t is self.thread:
                 continue
             if t is self.caller or t not in self.before:
+                if _is_display(t):
+                    continue
                 out.append(t)
         return out
 
-    def sample(self):
+    def display_threads_alive(self):
+        return any(t not in self.before and _is_display(t) for t in threading.enumerate())
+
+    def sample(self, include_display=False):
+        try:
+            tids = os.listdir("/proc/self/task")
+        except OSError:
+            return None
+        known = {t.native_id: t for t in threading.enumerate()}
         vec = []
-        for t in self.engine_threads():
-            nid = t.native_id
-            if nid is None:
-                return None
-            ok, cs = probe(nid)
+        for tid in tids:
+            tid = int(tid)
+            if tid in self.excluded_tids:
+                continue
+            t = known.get(tid)
+            if t is not None and not include_display and _is_display(t):
+                continue
+            ok, cs = probe(tid)
             if not ok:
                 return None
-            vec.append((nid, cs))
+            vec.append((tid, cs))
         vec.sort()
         return vec
+
+    def confirm_all_parked(self):
+        """Two samples over ALL kernel threads (display threads included) agree and are parked."""
+        a = self.sample(include_display=True)
+        if a is None:
+            return False
+        time.sleep(self.period)
+        return a == self.sample(include_display=True)
 
     def wait_quiescent(self):
         prev = None
@@ -144,7 +172,9 @@ class WaveDriver:
         self.before = set(threading.enumerate())
         self.thread = threading.Thread(target=self._loop, name="vmon-wave-driver", daemon=True)
         self.before.add(self.thread)
+        self.excluded_tids = {t.native_id for t in self.before if t is not self.caller and t.native_id is not None}
         self.thread.start()
+        self.excluded_tids.add(self.thread.native_id)
 
     def stop(self):
         self.stopping = True
@@ -211,6 +241,10 @@ class WaveDriver:
                 if not keys:
                     if self.run_done or self.stopping:
                         return
+                    if not self.confirm_all_parked():
+                        # e.g. the caller waits (untimed) for a bundled observer's display thread, which wakes on a timer
+                        time.sleep(self.period)
+                        continue
                     # every engine thread is parked in an untimed wait, no call is held by the harness,
                     # run() has not returned: nothing can ever move again.
                     if self.on_deadlock is not None:
